@@ -6,7 +6,9 @@ d=/verif/seeded/$id
 pid=$(python3 -c "import json;print(json.load(open('$d/meta.json'))['property'])")
 git -C /repo diff --quiet || { echo "/repo is dirty"; exit 2; }
 git -C /repo apply "$d/patch.diff" || { echo "patch does not apply"; exit 2; }
+cp /verif/evidence/$pid.json /tmp/seedtest-evidence-$pid.json 2>/dev/null
 cd /verif && ./check "$pid" --tier "$tier" > /tmp/seedtest-$id.log 2>&1; rc=$?
+cp /verif/evidence/$pid.json /tmp/seedtest-$id.evidence.json 2>/dev/null; cp /tmp/seedtest-evidence-$pid.json /verif/evidence/$pid.json 2>/dev/null   # evidence of a seeded run is not evidence
 git -C /repo checkout -- . ; git -C /repo clean -fdq -- . 2>/dev/null
 tail -5 /tmp/seedtest-$id.log
 if [ $rc -ne 0 ] && grep -q "^VIOLATION property=$pid" /tmp/seedtest-$id.log; then echo "SEED $id: DETECTED (rc=$rc)"; else echo "SEED $id: MISSED (rc=$rc)"; fi
